@@ -306,8 +306,8 @@ REGISTRY = {
         "a step whose status is not ok must leave the abstract state AND str(ro) unchanged"]),
     "C06": merge_property(lambda t: fam(t, story=STORY, item=ITEM, theorems=()) + [
         # containers that hold an id twice (outside the premise of C01-C05): deletes, judged by `acted_upon` only
-        ("storydup", ["StoryDelete", "EAStoryDelete"], dict(Q_STORY if t == "quick" else T_STORY, Layouts=["dup"]), t != "quick"),
-        ("itemdup", ["ItemDelete", "EAItemDelete"], dict(Q_ITEM if t == "quick" else T_ITEM, ILayouts=["dup"]), t != "quick")],
+        ("storydup", ["StoryDelete", "EAStoryDelete"], dict(Q_STORY if t == "quick" else T_STORY, Layouts=["dup"]), False),      # (the ordering theorems presuppose unique ids)
+        ("itemdup", ["ItemDelete", "EAItemDelete"], dict(Q_ITEM if t == "quick" else T_ITEM, ILayouts=["dup"]), False)],
         A_COMMON + [
         "warnings = MosRoMgrWarning subclasses recorded with simplefilter('always')"]),
     "C08": c08,
